@@ -222,6 +222,39 @@ def reconnect_scenario(seed, policy, n1, n2, thr):
     return run, res, out
 
 
+def reset_scenario(seed, policy, n):
+    """Packets are queued, the server resets the connection, the user disconnects: whatever could be sent was sent, and the
+    socket and its file object are closed afterwards (the descriptor is not left open for the life of the object)."""
+    from minecraft.networking.packets import serverbound
+    prof = Profile(VERSION)
+    run = Run(policy=policy, seed=seed)
+    holder = {}
+
+    def factory(idx, sess):
+        sc = TracingScript(run, prof, [])
+        sc.steps = [('expect', 2), ('send', prof.login_success(bytes(range(16)), 'verif')), ('call', lambda s: setattr(s, 'state', 'play')),
+                    ('pause', 'reset'), ('reset',)]
+        holder['sc'] = sc
+        return sc
+    run.serve(factory)
+    res = {}
+
+    def scenario(run):
+        c = run.make_connection(allowed_versions={VERSION})
+        res['connect'] = api(run, c, 'connect')
+        run.settle()
+        for k in range(n):
+            api(run, c, 'write', packet=serverbound.play.PluginMessagePacket(channel='w:%d' % (k + 1), data=b'x'))
+        holder['sc'].resume('reset')
+        res['disc'] = api(run, c, 'disc')
+        run.settle()
+        res['disc2'] = api(run, c, 'disc_now')
+    run.go(scenario)
+    net = run.installed.net
+    res['open'] = sorted(set(f.sock.sid for f in net.files.values() if not (f.closed and f.sock.closed)))
+    return run, res
+
+
 def judge_reconnect(n1, n2, res, out, outcome):
     if outcome not in ('done', 'quiescent'):
         return 'the execution ended as %s' % outcome
@@ -372,6 +405,18 @@ def run(chk):
             chk.violation('writer:second-session', '%d packets queued, immediate disconnect, connect(), %d packets queued, disconnect (threshold %r, '
                           'schedule %d): %s' % (n1, n2, thr_, j, why_), {'n1': n1, 'n2': n2, 'thr': thr_, 'j': j})
     chk.extra['second_session_executions'] = 40 if quick else 600
+    # ---- "and then closes the socket": also when the peer has reset the connection (shutdown() fails then)
+    for j in range(24 if quick else 300):
+        pol = vsched.SequentialPolicy() if j % 3 == 0 else vsched.RandomPolicy(chk.seed * 71 + j, switch_prob=(0.05, 0.3, 0.7)[j % 3])
+        run_, res_ = reset_scenario(chk.seed * 73 + j, pol, j % 4)
+        chk.traces += 1
+        chk.case(('reset-then-disconnect', j))
+        if run_.outcome not in ('done', 'quiescent') or res_.get('disc') != 'ok' or res_.get('disc2') != 'ok':
+            chk.violation('writer:reset-then-disconnect', 'server reset, then disconnect() (schedule %d): ended %s, calls returned %r'
+                          % (j, run_.outcome, res_), {'j': j})
+        elif res_['open']:
+            chk.violation('writer:socket-left-open', 'server reset, then disconnect() (schedule %d): socket(s) %r and / or their file objects were '
+                          'never closed' % (j, res_['open']), {'j': j})
     # ---- validate
     shards = 8
     per = (len(traces) + shards - 1) // shards
